@@ -351,8 +351,8 @@ package dkg
 //@ pred namesRecordedMembers(list, nodes) := forall j int :: 0 <= j && j < len(list) ==> (exists k int :: 0 <= k && k < len(nodes) && nodes[k].Identity.Addr == list[j].Address)
 //@ pred carriesRecordedKeys(list, nodes) := forall j int, k int :: 0 <= j && j < len(list) && 0 <= k && k < len(nodes) && list[j] != nil && list[j].Address == nodes[k].Identity.Addr ==> bytesEq(marshalOf(nodes[k].Identity.Key), list[j].Key)
 
-// everyMemberNamed: every node of the recorded group has its address at some position of remaining ++ leaving
-//@ pred everyMemberNamed(terms, nodes) := forall k int :: 0 <= k && k < len(nodes) ==> (exists m int :: 0 <= m && m < len(terms.Remaining) + len(terms.Leaving) && ite(m < len(terms.Remaining), terms.Remaining[m].Address, terms.Leaving[m - len(terms.Remaining)].Address) == nodes[k].Identity.Addr)
+// everyMemberNamed: every node of the recorded group has its address among the remaining or among the leaving members
+//@ pred everyMemberNamed(terms, nodes) := forall k int :: 0 <= k && k < len(nodes) ==> ((exists m int :: 0 <= m && m < len(terms.Remaining) && terms.Remaining[m].Address == nodes[k].Identity.Addr) || (exists m int :: 0 <= m && m < len(terms.Leaving) && terms.Leaving[m].Address == nodes[k].Identity.Addr))
 //@ func validateReshareForRemainers(currentState, terms) (err)
 //@   props C08 C09
 //@   requires currentState != nil && terms != nil && currentState.FinalGroup != nil
@@ -375,6 +375,7 @@ package dkg
 //@   call ContainsAll#0: after [C08,C09:successful-lookup-means-remaining-and-leaving-are-recorded-members] result ==> namesRecordedMembers(terms.Remaining, currentState.FinalGroup.Nodes) && namesRecordedMembers(terms.Leaving, currentState.FinalGroup.Nodes)
 //@   call ContainsAll#1: assert [C08,C09:positions-after-the-remaining-members-hold-the-leaving-members] forall m int :: len(terms.Remaining) <= m && m < len(arg0) ==> arg0[m] == terms.Leaving[m - len(terms.Remaining)]
 //@   call ContainsAll#1: assert [C08,C09:every-position-of-the-looked-up-list-is-a-remaining-or-leaving-member] forall m int :: 0 <= m && m < len(arg0) ==> arg0[m].Address == ite(m < len(terms.Remaining), terms.Remaining[m].Address, terms.Leaving[m - len(terms.Remaining)].Address)
+//@   call ContainsAll#1: assert [C08,C09:the-first-positions-of-the-looked-up-list-hold-the-remaining-members] forall m int :: 0 <= m && m < len(terms.Remaining) ==> arg0[m] == terms.Remaining[m]
 //@   call ContainsAll#1: after [C08,C09:successful-reverse-lookup-finds-every-recorded-address-in-the-looked-up-list] result ==> (forall k int :: 0 <= k && k < len(currentState.FinalGroup.Nodes) ==> (exists m int :: 0 <= m && m < len(arg0) && arg0[m].Address == currentState.FinalGroup.Nodes[k].Identity.Addr))
 //@   call ContainsAll#1: after [C08,C09:successful-reverse-lookup-means-nobody-is-left-out] result ==> everyMemberNamed(terms, currentState.FinalGroup.Nodes)
 //@   call keysMatchLastEpoch#0: after [C09:matching-remaining-keys-are-the-recorded-keys] result ==> carriesRecordedKeys(terms.Remaining, currentState.FinalGroup.Nodes)
@@ -542,3 +543,21 @@ package dkg
 //@ func (*sender).sendPacket(s, ctx, p)
 //@   props C14
 //@   flags nonblocking
+
+// ---- C07: a resharing runs on the key material of the last completed epoch --------------------------------------------------
+// (that kyber's resharing then keeps the distributed public key is cryptography, assumed; what drand must get right is that it
+// hands over the previous share, the previous public coefficients and the two thresholds)
+//@ extern (*github.com/drand/drand/v2/common/key.Group).DKGNodes(g) (nodes)
+//@   trusted maps the group's nodes to kyber DKG nodes (index, public key), touches nothing
+//@   modifies nothing
+//@   ensures nodes == dkgNodesOf(g)
+//@ ghost dkgNodesOf(ref) slice
+//@ func (*Process).reshareDKGConfig(d, current, previous, keypair, sortedParticipants) (cfg, err)
+//@   props C07
+//@   requires current != nil && keypair != nil
+//@   ensures [C07:a-reshare-without-a-completed-epoch-is-refused] previous == nil ==> err != nil
+//@   ensures [C07:reshare-hands-over-the-previous-public-coefficients] err == nil ==> cfg != nil && cfg.PublicCoeffs == previous.FinalGroup.PublicKey.Coefficients
+//@   ensures [C07:reshare-hands-over-the-previous-share] err == nil ==> cfg.Share == addr(previous.KeyShare.DistKeyShare)
+//@   ensures [C07:reshare-names-the-previous-group-as-the-old-nodes] err == nil ==> cfg.OldNodes == dkgNodesOf(previous.FinalGroup)
+//@   ensures [C07:reshare-signs-with-the-nodes-long-term-key] err == nil ==> cfg.Longterm == keypair.Key
+//@   ensures [C07:reshare-uses-the-new-threshold-and-remembers-the-old-one] err == nil ==> cfg.Threshold == current.Threshold && cfg.OldThreshold == previous.Threshold
